@@ -1,5 +1,7 @@
 import WhVerif.Lemmas.C16
 import WhVerif.Lemmas.C16UF
+import WhVerif.Model.C16Select
+import WhVerif.Props.C07
 /-!
 # C16 — results depend on the input only (the part that is logic)
 
@@ -116,5 +118,59 @@ theorem components_order_independent (values : List Nat) (ops1 ops2 : List WhVer
     ((WhVerif.C18.UF.exec (WhVerif.C18.UF.init values) ops1).find x).map (fun r => r.2)
       = ((WhVerif.C18.UF.exec (WhVerif.C18.UF.init values) ops2).find x).map (fun r => r.2) :=
   WhVerif.C16UF.find_order_independent values ops1 ops2 hsame x
+
+/-! ## read selection (`select_reads` after `readset.sort()`; model of `readselection`: `WhVerif.C07`) -/
+
+/-- **selection_outcomes_order_independent**: the reads of a sample may arrive in any order (BAM records of one
+position in any order, input files in any order of delivery — any permutation `l₂` of `l₁`); provided no two reads share
+name and source id (the sort key of `ReadSet::sort` is then injective; `ReadSet::add` enforces it), `readset.sort()` leaves
+the same sequence, hence `readselection` — which addresses reads by their index in the sorted read set and breaks the ties
+of its priority queue by those indices — returns the same selection for every resolution `cs` of the ties, and the set of
+selections it may return at all is the same. -/
+theorem selection_outcomes_order_independent (fixed : Bool) (l₁ l₂ : List SelRead) (h : l₁.Perm l₂)
+    (huniq : l₁.Pairwise (fun a b => ¬ (a.1.name = b.1.name ∧ a.1.sourceId = b.1.sourceId)))
+    (k : Nat) (br : Bool) :
+    sortedReads l₁ = sortedReads l₂ ∧
+    (∀ cs, selectAfterSort fixed l₁ k br cs = selectAfterSort fixed l₂ k br cs) ∧
+    selectOutcomes fixed l₁ k br = selectOutcomes fixed l₂ k br := by
+  have hs : sortedReads l₁ = sortedReads l₂ := by
+    unfold sortedReads
+    rw [sort_order_independent l₁ l₂ h huniq]
+  refine ⟨hs, ?_, ?_⟩
+  · intro cs; unfold selectAfterSort; rw [hs]
+  · unfold selectOutcomes; rw [hs]
+
+def selA : WhVerif.C07.Read := ⟨[10, 20], [30, 30], false⟩
+def selB : WhVerif.C07.Read := ⟨[20, 30], [30, 30], false⟩
+
+example : ([((⟨true, 10, 5, [97], 0⟩ : ReadKey), selA), (⟨true, 20, 3, [98], 0⟩, selB)] : List SelRead).Pairwise
+    (fun a b => ¬ (a.1.name = b.1.name ∧ a.1.sourceId = b.1.sourceId)) := by decide
+
+/-- which inputs make the outcome depend on the order: a TIE of priority-queue scores between reads that exclude each
+other under the coverage cap.  Reads A = (10, 20) and B = (20, 30) have the same score (2, 2, 30); with cap 1 whichever
+is popped first blocks the other.  `readselection` breaks the tie by index, so on the list `[A, B]` it selects A and on
+`[B, A]` it selects B: without the canonical order established by `readset.sort()` the selected READS depend on the
+order of arrival; both answers are admissible outcomes (`C07.allOutcomes`) of either listing. -/
+theorem selection_depends_on_order_at_score_ties :
+    WhVerif.C07.initScore (WhVerif.C07.positions [selA, selB]) selA
+      = WhVerif.C07.initScore (WhVerif.C07.positions [selA, selB]) selB ∧
+    (match WhVerif.C07.readselection true [selA, selB] 1 true [] with
+      | .ok sel => sel.map (WhVerif.C07.getRead [selA, selB]) | _ => []) = [selA] ∧
+    (match WhVerif.C07.readselection true [selB, selA] 1 true [] with
+      | .ok sel => sel.map (WhVerif.C07.getRead [selB, selA]) | _ => []) = [selB] ∧
+    WhVerif.C07.allOutcomes true [selA, selB] 1 true = [.ok [0], .ok [1]] ∧
+    WhVerif.C07.allOutcomes true [selB, selA] 1 true = [.ok [0], .ok [1]] := by
+  decide
+
+/-- … and ONLY ties do: when the enumeration of all tie resolutions yields a single outcome (no tie is ever decisive),
+every resolution of the ties — every heap layout, every insertion order of the queue — gives that selection. -/
+theorem selection_unique_without_decisive_ties (fixed : Bool) (reads : List WhVerif.C07.Read) (k : Nat) (br : Bool)
+    (o : WhVerif.C07.Outcome) (h1 : WhVerif.C07.allOutcomes fixed reads k br = [o]) (cs : List Nat) :
+    (WhVerif.C07.readselection fixed reads k br cs).canon = o := by
+  have := WhVerif.Props.C07.allOutcomes_complete fixed reads k br cs
+  rw [h1] at this
+  simpa using this
+
+example : WhVerif.C07.allOutcomes true [selA, ⟨[30, 40], [30, 30], false⟩] 1 true = [.ok [0, 1]] := by decide
 
 end WhVerif.Props.C16
